@@ -25,7 +25,7 @@ Check(e) ==
      ELSE IF \E r \in 1..R : \E p \in 1..P : \E v \in (1..V) \ H : ~e.entries[r][p][v].zero THEN "nonzero_for_unhandled_variable"
      ELSE IF Bounded(e.method) /\ (\E r \in 1..R : \E p \in 1..P : \E v \in 1..V : ~e.entries[r][p][v].inrange) THEN "outside_minus_one_one"
      ELSE IF e.shared /\ (\E r \in 1..R : ~e.eqreal[r]) THEN "shared_perturbations_differ_between_realizations"
-     ELSE IF ~e.shared /\ R > 1 /\ (\A r \in 1..R : e.eqreal[r]) THEN "not_drawn_per_realization"
+     ELSE IF ~e.shared /\ R > 1 /\ H # {} /\ (\A r \in 1..R : e.eqreal[r]) THEN "not_drawn_per_realization"
      ELSE IF QMC(e.method) /\ e.refvalid /\ (\E r \in 1..R : \E p \in 1..P : e.ptidx[r][p] = 0) THEN "perturbation_is_not_a_point_of_the_sequence"
      ELSE IF QMC(e.method) /\ e.refvalid /\ (\E a, b \in pairs : a # b /\ e.ptidx[a[1]][a[2]] = e.ptidx[b[1]][b[2]]) THEN "sequence_point_used_twice"
      ELSE IF e.method = "lhs" /\ D > 0 /\ (\E j \in 1..D : Cardinality({e.strat[a[1]][a[2]][j] : a \in pairs}) # N) THEN "latin_hypercube_stratification_lost"
